@@ -351,26 +351,186 @@ def check_escape_parse(ctx, led, v, rule="C04.escape"):
                 "some accepted field is not recorded in the metric map (%s): a later repetition of that metric passes the "
                 "duplicate check" % why,
             )
-    # raises under unrecognised conditions: listed as undecided (may over-reject)
-    recognised = 0
-    for n in ast.walk(pv.node):
-        if isinstance(n, ast.Raise):
-            facts = G.dominating_facts(module, n)
-            inhandler = any(isinstance(a, ast.ExceptHandler) for a in module.ancestors(n))
-            ok = inhandler
-            for f in facts:
-                s = norm_src(f.expr)
-                if any(
-                    t in s
-                    for t in ("startswith", "endswith", " in ", "== ''", '== ""', "not in")
-                ):
-                    ok = True
-            if ok:
-                recognised += 1
-            else:
-                led.undecided(
-                    "C04.overreject",
-                    "raise at %s is guarded by a condition this analysis does not recognise (%s): cannot show it never "
-                    "rejects a valid vector" % (module.where(n), [repr(f) for f in facts][:3]),
-                )
+    n_sites += check_overreject(ctx, led, v, summ, module, pv)
     return n_sites
+
+
+def representative_vectors(ctx, v):
+    """A finite family of *valid* vectors of version v (specification grammar), adequate for guards
+    that test the whole vector's length, its head or tail, its number of fields, and single fields:
+    shortest and longest vector, one vector per achievable length, and for every legal
+    metric:value a vector that has it first and one that has it last; each with every prefix."""
+    spec = ctx.vspec(v)
+    legal = ctx.legal(v)
+    order = list(spec["order"])
+    mand = list(spec["mandatory"])
+    prefixes = list(spec["prefixes"])
+    short_v = dict((k, min(legal[k], key=len)) for k in order)
+    long_v = dict((k, max(legal[k], key=len)) for k in order)
+    bodies = []
+
+    def body(metrics, vals, first=None, last=None):
+        ms = [m for m in metrics if m != first and m != last]
+        seq = ([first] if first else []) + ms + ([last] if last and last != first else [])
+        return "/".join("%s:%s" % (m, vals[m]) for m in seq)
+
+    bodies.append(body(mand, short_v))
+    bodies.append(body(order, long_v))
+    bodies.append(body(order, short_v))
+    bodies.append(body(mand, long_v))
+    # one witness per achievable length (subset-sum over the optional metrics and value lengths)
+    reach = {0: []}
+    for k in order:
+        opts = sorted(set(len(x) for x in legal[k]))
+        nxt = {}
+        for tot, pick in reach.items():
+            if k not in mand:
+                nxt.setdefault(tot, pick)
+            for L in opts:
+                val = [x for x in legal[k] if len(x) == L][0]
+                nxt.setdefault(tot + len(k) + 1 + L + (1 if pick else 0), pick + [(k, val)])
+        reach = nxt
+    for tot, pick in sorted(reach.items()):
+        bodies.append("/".join("%s:%s" % kv for kv in pick))
+    for k in order:
+        for val in legal[k]:
+            vals = dict(short_v)
+            vals[k] = val
+            ms = mand if k in mand else mand + [k]
+            bodies.append(body(ms, vals, first=k))
+            bodies.append(body(ms, vals, last=k))
+    out = []
+    seen = set()
+    for p in prefixes:
+        for b in bodies:
+            if p + b not in seen:
+                seen.add(p + b)
+                out.append(p + b)
+    return out
+
+
+def check_overreject(ctx, led, v, summ, module, pv, rule="C04.overreject"):
+    """No explicit raise of parse_vector may fire for a valid vector: the conjunction of the
+    conditions that dominate the raise is evaluated (decision-table evaluation, sa/geval.py) for
+    every representative valid vector and, inside the field loop, for every field of it."""
+    from .geval import GuardEval, Raised, Undecidable
+
+    info = VERSIONS[v]
+    reps = representative_vectors(ctx, v)
+    loop = summ.get("loop")
+    sites = []
+    for r in ast.walk(pv.node):
+        if not isinstance(r, ast.Raise):
+            continue
+        facts = G.dominating_facts(module, r)
+        handlers = [a for a in module.ancestors(r) if isinstance(a, ast.ExceptHandler)]
+        site = {
+            "node": r,
+            "facts": facts,
+            "handler": handlers[-1] if handlers else None,
+            "in_loop": loop is not None and any(a is loop for a in module.ancestors(r)),
+            "witness": None,
+            "undecided": None,
+            "evals": 0,
+            "ck": "%s.parse_vector::raise under %s" % (info["cls"], "; ".join(repr(f) for f in facts)[:140] or "no condition"),
+        }
+        if site["handler"] is not None:
+            h = site["handler"]
+            tr = [a for a in module.ancestors(h) if isinstance(a, ast.Try)][-1]
+            site["try"] = tr
+            site["try_facts"] = G.dominating_facts(module, tr)
+            hn = set()
+            if h.type is not None:
+                for t in ast.walk(h.type):
+                    if isinstance(t, ast.Name):
+                        hn.add(t.id)
+            site["hnames"] = hn
+        sites.append(site)
+    tname = loop.target.id if loop is not None and isinstance(loop.target, ast.Name) else None
+
+    def fires(site, ge):
+        if site["handler"] is None:
+            return all(bool(ge.ev(f.expr)) == f.pol for f in site["facts"])
+        # raise inside `except X`: fires when the try body raises X for this input
+        h, tr, hn = site["handler"], site["try"], site["hnames"]
+        if not all(bool(ge.ev(f.expr)) == f.pol for f in site["try_facts"]):
+            return False
+        for st_ in tr.body:
+            if isinstance(st_, (ast.Assign, ast.Expr)):
+                try:
+                    val = ge.ev(st_.value)
+                    if isinstance(st_, ast.Assign):
+                        t0 = st_.targets[0]
+                        if isinstance(t0, (ast.Tuple, ast.List)) and len(list(val)) != len(t0.elts):
+                            raise Raised(ValueError("unpack"))
+                except Raised as x:
+                    return h.type is None or type(x.exc).__name__ in hn or "Exception" in hn
+            else:
+                raise Undecidable("statement %s in a try body" % type(st_).__name__)
+        return False
+
+    def attempt(site, ge, vec, env):
+        if site["witness"] or site["undecided"]:
+            return
+        site["evals"] += 1
+        try:
+            if fires(site, ge):
+                site["witness"] = (vec, env, None)
+        except Undecidable as x:
+            site["undecided"] = str(x)
+        except Raised as x:
+            # evaluating the guard itself raises for a valid vector: an escape, C04.escape's matter
+            site["undecided"] = "the guard raises %s for a valid vector" % x
+
+    for vec in reps:
+        if all(s_["witness"] or s_["undecided"] for s_ in sites):
+            break
+        ge = GuardEval(ctx, module, pv.node, {}, {"self.vector": vec, "self.metrics": {}})
+        for site in sites:
+            if not site["in_loop"]:
+                attempt(site, ge, vec, {})
+        loop_sites = [s_ for s_ in sites if s_["in_loop"]]
+        if not loop_sites:
+            continue
+        if tname is None:
+            for s_ in loop_sites:
+                s_["undecided"] = "loop target is not a name"
+            continue
+        try:
+            elems = list(ge.ev(loop.iter))
+        except Raised as x:
+            for s_ in loop_sites:
+                s_["undecided"] = "the loop's sequence expression raises %s" % x
+            continue
+        except Undecidable as x:
+            for s_ in loop_sites:
+                s_["undecided"] = str(x)
+            continue
+        seen_metrics = {}
+        for el in elems:
+            ge2 = GuardEval(ctx, module, pv.node, {tname: el}, {"self.vector": vec, "self.metrics": dict(seen_metrics)})
+            for site in loop_sites:
+                attempt(site, ge2, vec, {tname: el})
+            if isinstance(el, str) and ":" in el:
+                seen_metrics[el.split(":")[0]] = el.split(":", 1)[1]
+    for site in sites:
+        r = site["node"]
+        where = module.where(r)
+        if site["witness"]:
+            vec, env, why = site["witness"]
+            led.violation(
+                rule,
+                site["ck"],
+                where,
+                "a valid vector is rejected: for %r%s the raise `%s` is reached"
+                % (vec, (" (field %s)" % list(env.values())[0]) if env else "", short(r)),
+            )
+        elif site["undecided"]:
+            led.undecided(
+                rule,
+                "raise at %s is guarded by a condition outside the decidable class (%s): cannot show it never rejects a valid vector"
+                % (where, site["undecided"]),
+            )
+        else:
+            led.ok(rule, site["ck"], where, "not reached for %d representative valid vectors (%d guard evaluations)" % (len(reps), site["evals"]))
+    return len(sites)
